@@ -381,3 +381,8 @@ def run(ck: Check, repo: Repo) -> None:
     c03.rule_decision(ck, repo, langs, "R6")
     r7 = ck.rule("R7", "the subset report examines subset_files(F) whenever F was given, even when F is empty (shared with C03-R4)")
     c03.file_list_source(r7, repo)
+    # lint and lint-file must see a file in the same state: nothing is carried from one examined file to the next (shared with C14-R6)
+    from . import c14
+    from ..typed import TypeFacts
+    from ..callgraph import CallGraph
+    c14.rule_task_purity(ck, repo, CallGraph(repo, TypeFacts(repo)), "R8")
